@@ -299,6 +299,7 @@ struct Nodes<'a> {
     matches: Vec<&'a syn::ExprMatch>,
     macros: Vec<&'a syn::Macro>,
     fors: Vec<&'a syn::ExprForLoop>,
+    derefs: Vec<&'a syn::ExprUnary>,
 }
 
 impl<'a> Visit<'a> for Nodes<'a> {
@@ -312,6 +313,7 @@ impl<'a> Visit<'a> for Nodes<'a> {
             syn::Expr::If(i) => self.ifs.push(i),
             syn::Expr::Closure(c) => self.closures.push(c),
             syn::Expr::Match(m) => self.matches.push(m),
+            syn::Expr::Unary(u) if matches!(u.op, syn::UnOp::Deref(_)) => self.derefs.push(u),
             _ => {}
         }
         syn::visit::visit_expr(self, e);
@@ -809,6 +811,25 @@ fn process_fn(
                 let pos = block_anchor(b, rest, &sp.at)?;
                 edits.ins(pos, format!("\n{}\n", sp.text.trim_end()), &label);
             }
+            ["borrowcalls"] => {
+                // N8: `*X.borrow()` -> `W(&(X))`, W a wrapper named by the template whose body is `*s.borrow()`
+                let w = sp.name.clone().ok_or_else(|| Lost(format!("bad anchor {}: no wrapper name", sp.at)))?;
+                let mut n = 0;
+                for u in &nodes.derefs {
+                    if let syn::Expr::MethodCall(m) = &*u.expr {
+                        if m.method == "borrow" && m.args.is_empty() && m.turbofish.is_none() {
+                            let (us, ue) = br(u.span());
+                            let (rs, re) = br(m.receiver.span());
+                            edits.rep(us, ue, format!("{w}(&({}))", src_slice(rs, re)), "N8");
+                            n += 1;
+                        }
+                    }
+                }
+                if n == 0 {
+                    return lost(format!("lost anchor {}: no `*X.borrow()` in the body", sp.at));
+                }
+                log.push(format!("N8 {n} x `*X.borrow()` -> {w}(&X)"));
+            }
             [l, rest @ ..] if l.starts_with("loop[") => {
                 let n = parse_idx(l, "loop").ok_or_else(|| Lost(format!("bad anchor {}", sp.at)))?;
                 let e = *nodes.loops.get(n).ok_or_else(|| Lost(format!("lost anchor {}: function has {} loops", sp.at, nodes.loops.len())))?;
@@ -821,6 +842,27 @@ fn process_fn(
                 match rest {
                     ["invariant"] => {
                         edits.ins(br(b.brace_token.span.open()).0, format!("\n{}\n", sp.text.trim_end()), &label);
+                    }
+                    ["desugar"] => {
+                        // N7: `for PAT in EXPR { B }` -> the reference desugaring
+                        // `{ let mut it = (EXPR).into_iter(); loop SPEC { match it.next() { Some(PAT) => { B } None => { break; } } } }`
+                        if let syn::Expr::ForLoop(f) = e {
+                            if f.label.is_some() {
+                                return lost(format!("lost anchor {}: labelled for loop", sp.at));
+                            }
+                            let nm = sp.name.clone().unwrap_or_else(|| "it".into());
+                            let fs = br(f.for_token.span()).0;
+                            let (ps, pe) = br(f.pat.span());
+                            let (es, ee) = br(f.expr.span());
+                            let open = br(b.brace_token.span.open()).0;
+                            let close = br(b.brace_token.span.close()).1;
+                            let (pat, ex) = (src_slice(ps, pe), src_slice(es, ee));
+                            edits.rep(fs, open, format!("{{ let mut {nm} = ({ex}).into_iter(); loop\n{}\n{{ match {nm}.next() {{ Some({pat}) => ", sp.text.trim_end()), "N7");
+                            edits.ins(close, " None => { break; } } } }", "N7");
+                            log.push(format!("N7 for {pat} in {ex} -> let mut {nm} = into_iter; loop {{ match {nm}.next() }}"));
+                        } else {
+                            return lost(format!("lost anchor {}: not a for loop", sp.at));
+                        }
                     }
                     ["iter"] => {
                         if let syn::Expr::ForLoop(f) = e {
